@@ -361,6 +361,11 @@ def cases_stored(tier):
                 for flag in flags:
                     out.append({"space": "stored", "target": st_target, "flag": flag,
                                 "overrides": [{"path": dotted.split("."), "label": label, "value": sr.enc(value)}]})
+                # a document that SAYS developer_mode false next to a changed developer-only constant (edited by hand, or written
+                # by another release): the lock holds on the loading side too
+                if st_target == "DailyModel" and dotted in sr.developer_leaves(table(), fam):
+                    out.append({"space": "stored", "target": st_target, "flag": "tampered",
+                                "overrides": [{"path": dotted.split("."), "label": label, "value": sr.enc(value)}]})
     return out
 
 
@@ -803,6 +808,8 @@ def run_stored(case):
     if daily:
         needs_dev = bool(_dev_leaf_diffs(fam, recorded))
         recorded["developer_mode"] = True if (needs_dev or case["flag"] == "forced_true") else False
+        if case["flag"] == "tampered":
+            recorded["developer_mode"] = False
         # a train_features-like completion does not exist in the daily tree: the document is exactly the reference tree
         doc = {"submodels": {"fw-su_sh_wi": copy.deepcopy(_SUBMODEL)}, "info": copy.deepcopy(_DAILY_INFO), "settings": recorded}
         loader = BillingModel if billing else DailyModel
@@ -820,11 +827,24 @@ def run_stored(case):
         with contextlib.redirect_stdout(buf):
             m = loader.from_dict(copy.deepcopy(doc))
     except Exception as e:  # noqa
+        if case["flag"] == "tampered":
+            return {"behaviour": [st_target, "tampered_rejected", type(e).__name__], "violations": [], "stats": {"documents": 1}}
         viol.append({"clause": "stored_document_rejected", "key": key,
                      "detail": f"from_dict raised {type(e).__name__}: {str(e)[:200]} for a document whose settings are valid | {ctx}"})
         return {"behaviour": [st_target, "load_failed", type(e).__name__], "violations": viol, "stats": {"documents": 1}}
     built = json.loads(json.dumps(m.settings.model_dump(mode="json")))
     want = doc["settings"]
+    if case["flag"] == "tampered":
+        # accepted: admissible only if what the model now runs with are the approved constants of the family it was loaded as
+        # (the loader may recognise the document as one of the other daily family)
+        lfam = type(m.settings).__name__ if type(m.settings).__name__ in t["families"] else fam
+        diffs = _dev_leaf_diffs(lfam, _snapshot(m.settings))
+        if diffs:
+            viol.append({"clause": "lock_bypassed_by_stored_document", "key": {"target": st_target},
+                         "detail": f"a document with developer_mode=false and {case['overrides'][0]['path']} = {overrides[0][1]!r} was loaded; the model's "
+                                   f"developer-only settings differ from the approved constants of {lfam} at {diffs[:5]} (live developer_mode="
+                                   f"{built.get('developer_mode')!r}) | {ctx}"})
+        return {"behaviour": [st_target, "tampered_loaded_as", lfam, bool(diffs)], "violations": viol, "stats": {"documents": 1}}
     same = sr.json_equal if daily or "train_features" not in want else (
         lambda a, b: sr.json_equal({k: v for k, v in a.items() if k != "train_features"},
                                    {k: v for k, v in b.items() if k != "train_features"})
